@@ -57,3 +57,62 @@ def check(ctx, fn, rule):
     else:
         ctx.ok(rule, inst, "%d variable lists with extreme begins / lengths: no sum leaves the signed 64-bit range" % cells)
     return cells
+
+
+def check_recsize(ctx, fn, rule):
+    """the reader's record size for well-formed layouts: with exactly one record variable the records are packed (record size =
+    the variable's unpadded bytes per record), otherwise the record size is the sum of the record variables' padded lengths -
+    the rule the writer (NC_begins) and the specification use.  Lists of up to 3 variables, fixed-size or record, record
+    variables of 3 or 6 raw bytes per record (padded 4 / 8)."""
+    import itertools as _it
+    kinds = [("f", 16, 16), ("r", 3, 4), ("r", 6, 8), ("r", 8, 8)]
+    cells = 0
+    bad = None
+    for n in (1, 2, 3):
+        for lst in _it.product(kinds, repeat=n):
+            env = {"$dyn": True, "ncp->vars.ndefined": n, "ncp->xsz": 200, "ncp->begin_var": 0, "ncp->begin_rec": 0, "ncp->recsize": 0,
+                   "ncp->vars.num_rec_vars": 0}       # the decoder counts the record variables only after this call
+            off = 512
+            fixed = [x for x in lst if x[0] == "f"]
+            recs = [x for x in lst if x[0] == "r"]
+            order = fixed + recs                        # fixed-size variables precede the record section
+            for i, (k, raw, ln) in enumerate(order):
+                env["ncp->vars.value[%d]" % i] = ("P", "V", i)
+                env["V[%d].shape" % i] = ("P", "S%d" % i, 0)
+                env["S%d[0]" % i] = 0 if k == "r" else 7
+                env["V[%d].dsizes" % i] = ("P", "D%d" % i, 0)
+                env["D%d[0]" % i] = raw
+                env["V[%d].len" % i] = ln
+                env["V[%d].begin" % i] = off
+                env["V[%d].xsz" % i] = 1
+                off += ln
+            e = None
+            for attempt in range(8):
+                e = dict(env)
+                try:
+                    concrete.run_region(fn, (fn.entry, 0), set(), e, max_steps=600)
+                    break
+                except KeyError as k_:
+                    env[str(k_).strip("'\"")] = 0
+                except concrete.Unsupported as u:
+                    t = str(u)
+                    if t.startswith("value of "):
+                        env[t[len("value of "):]] = 0
+                    else:
+                        raise AnalysisBroken("%s is no longer interpretable: %s" % (fn.name, u))
+            cells += 1
+            if e.get("$ret"):
+                continue
+            want = 0 if not recs else (recs[0][1] if len(recs) == 1 else sum(x[2] for x in recs))
+            got = e.get("ncp->recsize")
+            if got != want and bad is None:
+                bad = (["%s, %d bytes%s" % ("record variable" if k == "r" else "fixed-size variable", raw, " per record (padded %d)" % ln if k == "r" else "")
+                        for k, raw, ln in order], got, want)
+    inst = "%s:recsize" % fn.name
+    if bad:
+        ctx.fail(rule, fn.name, "recsize", "header with %s: the reader computes a record size of %s, the format rule (and the writer) give %s "
+                 "- records 1.. of a reopened file are addressed at the wrong offsets" % ("; ".join(bad[0]), bad[1], bad[2]),
+                 fn=fn, line=fn.line, inst=inst)
+    else:
+        ctx.ok(rule, inst, "%d variable lists: record size packed for a single record variable, sum of padded lengths otherwise" % cells)
+    return cells
